@@ -90,17 +90,22 @@ theorem step_shorthand {H : Hooks} {constants L : Dict} {p : Int} {line line' : 
       obtain ⟨g1, g2, g3⟩ := C10.packInt_le_value _ n v bs' hpk
       exact ⟨v, hv, g1, g2, g3⟩
 
-/-- **Data that refers to labels holds final addresses.** -/
+/-- **Data that refers to labels holds final addresses.**  `lay` is the layout the inputs determine
+    (`C03.Frame`).  If item `i` of `lay.aligned` - the list the pipeline holds after resolve_aligns - is
+    `db / dh / dw / dd imm` of width `n`, then `imm` evaluates, at the item's byte offset against the
+    RETURNED tables, to some `v`, and the `n` output bytes at that offset are `v mod 2^(8n)` little-endian. -/
 theorem assemble_data_value (H : Hooks) (compress : Bool) (items : List Item) (r : AsmResult)
     (h : assembleItems H compress items [] [] = .ok r) :
-    ∃ items7 out : List Item, Expands items items7 ∧ r.bytes = blobBytes out ∧
-      ∀ (i : Nat) (hi : i < items7.length) line name imm n,
-        items7[i] = .shorthandPack line name imm → shorthandSize name = some n →
+    ∃ lay out, Frame H compress items r lay out ∧
+      ∀ (i : Nat) (hi : i < lay.aligned.length) line name imm n,
+        lay.aligned[i] = .shorthandPack line name imm → shorthandSize name = some n →
         ∃ v, Imm.eval H (chainGet r.constants r.labels) line imm ((blobBytes (out.take i)).length : Int) = .ok v ∧
           (fromLE ((r.bytes.drop (blobBytes (out.take i)).length).take n) : Int)
             = v % ((2 ^ (8 * n) : Nat) : Int) := by
-  obtain ⟨items7, out, hexp, hland, hbytes⟩ := assemble_land H compress items r h
-  refine ⟨items7, out, hexp, hbytes, ?_⟩
+  obtain ⟨lay, out, hF⟩ := assemble_land H compress items r h
+  have hland := hF.land
+  have hbytes := hF.bytes
+  refine ⟨lay, out, hF, ?_⟩
   intro i hi line name imm n hit hn
   obtain ⟨it', line', d, _, hbody, hfin, hslice⟩ := hland.at i hi
   rw [hit] at hbody
@@ -108,5 +113,22 @@ theorem assemble_data_value (H : Hooks) (compress : Bool) (items : List Item) (r
   refine ⟨v, by simpa using hv, ?_⟩
   rw [hbytes, ← hl, hslice]
   rw [hl]; exact hval
+
+/-- the hypothesis has instances: the layout computed for `C03.sample` holds `db 1` at index 4 and
+    `dw end` (a label reference) at index 6, in both modes -/
+example : ∀ c : Bool,
+    (BB.Props.C04.layoutOf (textHooks ⟨[], []⟩) c sample).toOption.map
+      (fun l => (l.aligned[4]?, l.aligned[6]?)) = some
+      (some (.shorthandPack (sampleLine 6 "db 1") "db" (.arith "1")),
+       some (.shorthandPack (sampleLine 8 "dw end") "dw" (.arith "end"))) := by
+  decide +kernel
+
+/-- and there the four bytes of `dw end` are the final value of `end`: 26 without -c (offset 20), 22 with
+    -c (offset 16) -/
+example : (assembleItems (textHooks ⟨[], []⟩) false sample [] []).toOption.map
+      (fun r => ((r.bytes.drop 20).take 4, r.labels.get "end")) = some ([26, 0, 0, 0], some 26) ∧
+    (assembleItems (textHooks ⟨[], []⟩) true sample [] []).toOption.map
+      (fun r => ((r.bytes.drop 16).take 4, r.labels.get "end")) = some ([22, 0, 0, 0], some 22) := by
+  decide +kernel
 
 end BB.Props.C08
